@@ -2527,6 +2527,22 @@ impl<'a> Model<'a> {
                 }
             }
         }
+        // A dynamic array under the block is dissolved, as if its cells had been typed
+        // into: its anchor must not keep claiming (nor its spill cells keep pointing at)
+        // cells that now belong to this array
+        for r in row..row + height {
+            for c in column..column + width {
+                if r == row && c == column {
+                    continue;
+                }
+                if matches!(
+                    self.get_cell_structure(sheet, r, c)?,
+                    CellStructure::DynamicFormula { .. } | CellStructure::SpillDynamic { .. }
+                ) {
+                    self.prepare_cell_for_user_input(sheet, r, c)?;
+                }
+            }
+        }
         self.set_array_formula_unchecked(sheet, row, column, width, height, value)
     }
 
